@@ -5,6 +5,7 @@ from driver.common import Case
 from driver.props import c08_pool as P
 
 ID = "C16"
+NEEDS_BINARY = True
 LEVEL_TEXT = (
     "Lean theorems: framing relations of what alignAgainstRefsAA/NT build from an alignment hit "
     "(translate(drop(f+3k)) = drop k (translate f), codon sequence translates to the reported amino acids, trimmed "
@@ -31,7 +32,7 @@ TECHNIQUE = ("Lean 4 proof (list induction; transition system over all schedules
 LEAN_MODULES = ["Gv.Props.C16"]
 REQUIRED_THEOREMS = ["Gv.Props.C16." + n for n in [
     "translate_drop", "phase_codon_translates_to_aa", "phase_nt_is_substring_at_position",
-    "phase_nt_is_substring_at_position_nt", "phase_nt_codon_in_frame", "phase_cutend_bounds", "pickLongest_max",
+    "phase_nt_is_substring_at_position_nt", "phase_nt_codon_in_frame", "phase_nt_verbatim_multi_partial", "phase_cutend_bounds", "pickLongest_max",
     "longestORF_scan_is_longest", "longestORF_regex_sound", "longestORF_regex_not_longest",
     "pool_one_result_per_input", "pool_results_closed", "pool_schedule_independent", "phase_inputs_unmodified",
     "instanceOfPool_closes_results",
@@ -212,6 +213,8 @@ def gen(rng, tier):
 
 
     # ---- the aligner behind phasing (ALIGN_ALGO_ATG) and alignAgainstRefsNT on one sequence ----------------
+    for c in cli_cases(rng, quick):
+        yield c
     for c in align_cases(rng, quick):
         yield c
 
@@ -299,6 +302,44 @@ def align_cases(rng, quick):
         mt, mm = rng.choice([("_", "_"), ("_", "_"), ("2", "-2"), ("4", "-1")])
         yield Case("phasent1", [2, go, ge, mt, mm, rng.choice([0, 0, 1]), rng.choice([0, 1]), rng.choice([0, 1, 2]),
                                 "ref:" + orf, seq], False, "phasent1-tiny")
+
+
+def cli_cases(rng, quick):
+    """the commands `goalign orf` and `goalign phasent` on the built binary against the library models"""
+    from driver import cligen
+    for _ in range(30 if quick else 300):
+        seqs = []
+        orf = make_orf(rng, rng.randint(3, 12))
+        for i in range(rng.randint(1, 5)):
+            body = orf if rng.random() < 0.5 else mutate(rng, orf, rng.choice([0.02, 0.1]), rng.random() < 0.2)
+            q = rnd(rng, rng.randint(0, 9)) + body + rnd(rng, rng.randint(0, 9))
+            if rng.random() < 0.3:
+                q = revcomp(q)
+            if rng.random() < 0.15:
+                q = rnd(rng, rng.randint(1, 12))
+            if rng.random() < 0.2:
+                q = q.lower() if rng.random() < 0.5 else q.replace("T", "U")
+            seqs.append(("q%d" % i, q))
+        st = cligen.esc(cligen.fasta(seqs))
+        yield Case("cli_lib", [st, "orf"] + (["--reverse"] if rng.random() < 0.5 else []), True, "cli-orf")
+        refs = [("ref", orf)] + ([("ref2", make_orf(rng, rng.randint(2, 14)))] if rng.random() < 0.3 else [])
+        if rng.random() < 0.3:
+            refs.reverse()
+        up = [(n, q.upper().replace("U", "T")) for n, q in seqs]
+        fl = ["--unaligned", "--ref-orf", "ref.fa", "--match-cutoff", "-1", "--nt-output", "codon.fa", "--aa-output", "aa.fa"]
+        if rng.random() < 0.5:
+            fl.append("--reverse")
+        if rng.random() < 0.4:
+            fl.append("--cut-end")
+        if rng.random() < 0.4:
+            fl += ["--genetic-code", rng.choice(["standard", "mitov", "mitoi"])]
+        if rng.random() < 0.3:
+            fl += ["-t", str(rng.choice([1, 2, 4, 8]))]
+        if rng.random() < 0.5:
+            fl += ["--gap-open", rng.choice(["-12", "-10", "-8.5", "-20"])]
+        if rng.random() < 0.3:
+            fl += ["--gap-extend", rng.choice(["-0.5", "-1", "-2.5"])]
+        yield Case("cli_libf", [cligen.esc(cligen.fasta(up)), "ref.fa=" + cligen.esc(cligen.fasta(refs)), "phasent"] + fl, True, "cli-phasent")
 
 
 def accepts(c):
